@@ -2,6 +2,7 @@ package main
 
 import (
 	"fmt"
+	"sort"
 	"strings"
 )
 
@@ -108,6 +109,7 @@ func (ex *Executor) matchRow(st *State, fr *Frame, r *Row, evs []*Event) (*Term,
 		env.bindResults(fr.fn, st.resultsForRows)
 	}
 	var cs []*Term
+	skipped := map[string]bool{}
 	bind := func(name string, v Val) {
 		if name == "" || name == "_" {
 			return
@@ -178,6 +180,11 @@ func (ex *Executor) matchRow(st *State, fr *Frame, r *Row, evs []*Event) (*Term,
 			}
 		case "send", "send?":
 			if e.Kind == "ctxdone" && p.Kind == "send?" && e.InSelect {
+				// the guarded send lost against cancellation: nothing was sent, so conditions on the value
+				// that would have been sent do not apply
+				if a := p.Args[0]; a.Kind == "ident" && strings.HasPrefix(a.Name, "bind_") {
+					skipped[strings.TrimPrefix(a.Name, "bind_")] = true
+				}
 				continue
 			}
 			if e.Kind != "send" {
@@ -201,6 +208,32 @@ func (ex *Executor) matchRow(st *State, fr *Frame, r *Row, evs []*Event) (*Term,
 		case "call", "go", "defer":
 			if e.Kind != p.Kind || !nameMatches(e.Fn, p.Fn) {
 				return nil, false, nil
+			}
+			if p.Named != nil {
+				var nms []string
+				for nm := range p.Named {
+					nms = append(nms, nm)
+				}
+				sort.Strings(nms)
+				for _, nm := range nms {
+					a := p.Named[nm]
+					k := -1
+					for i, n := range e.ArgNames {
+						if n == nm {
+							k = i
+						}
+					}
+					if k < 0 || k >= len(e.Args) {
+						return nil, false, nil // the closure does not capture this variable
+					}
+					if a.Kind == "ident" && strings.HasPrefix(a.Name, "bind_") {
+						bind(strings.TrimPrefix(a.Name, "bind_"), e.Args[k])
+						continue
+					}
+					if err := eqArg(a, e.Args[k]); err != nil {
+						return nil, false, err
+					}
+				}
 			}
 			if p.Args != nil {
 				if len(p.Args) != len(e.Args) {
@@ -227,11 +260,38 @@ func (ex *Executor) matchRow(st *State, fr *Frame, r *Row, evs []*Event) (*Term,
 		}
 	}
 	if r.When != nil {
-		w, err := ex.evalSpec(r.When, env)
-		if err != nil {
-			return nil, false, err
+		for _, cj := range conjuncts(r.When) {
+			if len(skipped) > 0 && mentions(cj, skipped) {
+				continue
+			}
+			w, err := ex.evalSpec(cj, env)
+			if err != nil {
+				return nil, false, err
+			}
+			cs = append(cs, w.T)
 		}
-		cs = append(cs, w.T)
 	}
 	return And(cs...), true, nil
+}
+
+func conjuncts(e *SExpr) []*SExpr {
+	if e.Kind == "binary" && e.Name == "&&" {
+		return append(conjuncts(e.Args[0]), conjuncts(e.Args[1])...)
+	}
+	return []*SExpr{e}
+}
+
+func mentions(e *SExpr, names map[string]bool) bool {
+	if e == nil {
+		return false
+	}
+	if e.Kind == "ident" && names[e.Name] {
+		return true
+	}
+	for _, a := range e.Args {
+		if mentions(a, names) {
+			return true
+		}
+	}
+	return false
 }
